@@ -130,19 +130,21 @@ pub fn wop_strategy(p: &ScriptParams) -> BoxedStrategy<WOp> {
     // size 0 = a zero-length Reliable packet on channel 63
     let size = prop_oneof![1 => Just(0u16), 6 => 5u16..100, 2 => 100u16..1500, 1 => 1500u16..6000];
     let size2 = prop_oneof![1 => Just(0u16), 6 => 5u16..100, 2 => 100u16..1500, 1 => 1500u16..6000];
-    prop_oneof![
-        30 => (dt, prop_oneof![6 => Just(true), 1 => Just(false)], prop_oneof![6 => Just(255u8), 2 => any::<u8>()]).prop_map(|(dt_us, server, clients)| WOp::Tick { dt_us, server, clients }),
-        p.send_weight => (0..nc, prop_oneof![3 => 0u8..3, 1 => 0u8..64], 0u8..4, size).prop_map(|(c, ch, mode, size)| WOp::ClientSend { c, ch, mode, size }),
-        p.send_weight => (0..nc, prop_oneof![3 => 0u8..3, 1 => 0u8..64], 0u8..4, size2).prop_map(|(c, ch, mode, size)| WOp::ServerSend { c, ch, mode, size }),
-        p.disconnect_weight => (0..nc, prop_oneof![2 => Just(false), 1 => Just(true)]).prop_map(|(c, now)| WOp::ClientDisconnect { c, now }),
-        p.disconnect_weight => (0..nc, prop_oneof![2 => Just(false), 1 => Just(true)]).prop_map(|(c, now)| WOp::ServerDisconnect { c, now }),
-        p.drop_weight => (0..nc).prop_map(|c| WOp::ServerDrop { c }),
-        2 => (0..nc).prop_map(|c| WOp::ClientFlush { c }),
-        2 => Just(WOp::ServerFlush),
-        p.replay_weight => (0..nc, any::<bool>(), any::<u16>()).prop_map(|(c, to_server, sel)| WOp::ReplayControl { c, to_server, sel }),
-        p.stray_weight => (0..nc, any::<bool>(), 0u8..8, any::<u32>()).prop_map(|(c, to_server, kind, nonce)| WOp::Stray { c, to_server, kind, nonce }),
-        if p.faults { 2 } else { 0 } => (0..nc, 1u8..4, prop_oneof![3 => 10u32..2_000, 2 => 2_000u32..30_000, 1 => Just(10_000_000u32)]).prop_map(|(c, dirs, len_ms)| WOp::Blackout { c, dirs, len_ms }),
-    ]
+    // (an option with weight 0 is left out: proptest's Union rejects zero weights)
+    let mut options: Vec<(u32, BoxedStrategy<WOp>)> = Vec::new();
+    options.push((30, (dt, prop_oneof![6 => Just(true), 1 => Just(false)], prop_oneof![6 => Just(255u8), 2 => any::<u8>()]).prop_map(|(dt_us, server, clients)| WOp::Tick { dt_us, server, clients }).boxed()));
+    options.push((p.send_weight, (0..nc, prop_oneof![3 => 0u8..3, 1 => 0u8..64], 0u8..4, size).prop_map(|(c, ch, mode, size)| WOp::ClientSend { c, ch, mode, size }).boxed()));
+    options.push((p.send_weight, (0..nc, prop_oneof![3 => 0u8..3, 1 => 0u8..64], 0u8..4, size2).prop_map(|(c, ch, mode, size)| WOp::ServerSend { c, ch, mode, size }).boxed()));
+    options.push((p.disconnect_weight, (0..nc, prop_oneof![2 => Just(false), 1 => Just(true)]).prop_map(|(c, now)| WOp::ClientDisconnect { c, now }).boxed()));
+    options.push((p.disconnect_weight, (0..nc, prop_oneof![2 => Just(false), 1 => Just(true)]).prop_map(|(c, now)| WOp::ServerDisconnect { c, now }).boxed()));
+    options.push((p.drop_weight, (0..nc).prop_map(|c| WOp::ServerDrop { c }).boxed()));
+    options.push((2, (0..nc).prop_map(|c| WOp::ClientFlush { c }).boxed()));
+    options.push((2, Just(WOp::ServerFlush).boxed()));
+    options.push((p.replay_weight, (0..nc, any::<bool>(), any::<u16>()).prop_map(|(c, to_server, sel)| WOp::ReplayControl { c, to_server, sel }).boxed()));
+    options.push((p.stray_weight, (0..nc, any::<bool>(), 0u8..8, any::<u32>()).prop_map(|(c, to_server, kind, nonce)| WOp::Stray { c, to_server, kind, nonce }).boxed()));
+    options.push((if p.faults { 2 } else { 0 }, (0..nc, 1u8..4, prop_oneof![3 => 10u32..2_000, 2 => 2_000u32..30_000, 1 => Just(10_000_000u32)]).prop_map(|(c, dirs, len_ms)| WOp::Blackout { c, dirs, len_ms }).boxed()));
+    options.retain(|o| o.0 > 0);
+    proptest::strategy::Union::new_weighted(options)
     .boxed()
 }
 
